@@ -82,6 +82,53 @@ func gnuTarOf(want map[string]*treeEntry) ([]byte, bool) {
 	return tb.Bytes(), true
 }
 
+// parseGnuTar reads a tar archive with archive/tar into tree entries. archive/tar forgives a missing end-of-archive
+// marker and missing padding, GNU tar does not: the archive must be a whole number of 512-byte blocks and end in two
+// zero blocks.
+func parseGnuTar(b []byte) (map[string]*treeEntry, error) {
+	if len(b)%512 != 0 {
+		return nil, fmt.Errorf("the archive has %d bytes, not a whole number of 512-byte blocks", len(b))
+	}
+	if len(b) < 1024 || !bytes.Equal(b[len(b)-1024:], make([]byte, 1024)) {
+		return nil, fmt.Errorf("the archive (%d bytes) does not end in the two zero blocks that mark its end", len(b))
+	}
+	got := map[string]*treeEntry{}
+	tr := gnutar.NewReader(bytes.NewReader(b))
+	for {
+		h, err := tr.Next()
+		if err == io.EOF {
+			break
+		}
+		if err != nil {
+			return nil, fmt.Errorf("archive/tar cannot read the produced tar: %v", err)
+		}
+		name := filepath.Clean(h.Name)
+		e := &treeEntry{Path: name, Mode: uint32(h.Mode) & 07777, UID: uint32(h.Uid), GID: uint32(h.Gid), MtimeNs: h.ModTime.UnixNano(), Xattrs: map[string]string{}}
+		switch h.Typeflag {
+		case gnutar.TypeDir:
+			e.Type = "dir"
+		case gnutar.TypeReg:
+			e.Type = "file"
+			e.Content, _ = io.ReadAll(tr)
+			if e.Content == nil {
+				e.Content = []byte{}
+			}
+		case gnutar.TypeSymlink:
+			e.Type, e.Target, e.Mode = "symlink", h.Linkname, 0
+		case gnutar.TypeChar:
+			e.Type = "char"
+		case gnutar.TypeBlock:
+			e.Type = "block"
+		}
+		if e.Type == "char" || e.Type == "block" {
+			major, minor := uint64(h.Devmajor), uint64(h.Devminor)
+			e.Rdev = (major&0xfff)<<8 | (major&0xfffff000)<<32 | (minor & 0xff) | (minor&0xffffff00)<<12
+		}
+		got[name] = e
+	}
+	return got, nil
+}
+
 // parseMtree reads an mtree manifest as mtree(5) defines it: one entry per line, words separated by blanks, the first
 // word the path with \ooo escapes, every other word keyword=value. It returns the entries and, for files, the size
 // and digest words.
@@ -412,40 +459,10 @@ func runC05(c *fw.Case) {
 			c.Outcome("gnu-tar-refused")
 			return
 		}
-		got := map[string]*treeEntry{}
-		tr := gnutar.NewReader(&out)
-		for {
-			h, err := tr.Next()
-			if err == io.EOF {
-				break
-			}
-			if err != nil {
-				c.Violate("gnu-tar-unreadable", site, "archive/tar cannot read the produced tar: %v", err)
-				return
-			}
-			name := filepath.Clean(h.Name)
-			e := &treeEntry{Path: name, Mode: uint32(h.Mode) & 07777, UID: uint32(h.Uid), GID: uint32(h.Gid), MtimeNs: h.ModTime.UnixNano(), Xattrs: map[string]string{}}
-			switch h.Typeflag {
-			case gnutar.TypeDir:
-				e.Type = "dir"
-			case gnutar.TypeReg:
-				e.Type = "file"
-				e.Content, _ = io.ReadAll(tr)
-				if e.Content == nil {
-					e.Content = []byte{}
-				}
-			case gnutar.TypeSymlink:
-				e.Type, e.Target, e.Mode = "symlink", h.Linkname, 0
-			case gnutar.TypeChar:
-				e.Type = "char"
-			case gnutar.TypeBlock:
-				e.Type = "block"
-			}
-			if e.Type == "char" || e.Type == "block" {
-				major, minor := uint64(h.Devmajor), uint64(h.Devminor)
-				e.Rdev = (major&0xfff)<<8 | (major&0xfffff000)<<32 | (minor & 0xff) | (minor&0xffffff00)<<12
-			}
-			got[name] = e
+		got, perr := parseGnuTar(out.Bytes())
+		if perr != nil {
+			c.Violate("gnu-tar-unreadable", site, "%v", perr)
+			return
 		}
 		for _, e := range want {
 			if e.Type == "file" && e.Content == nil {
